@@ -112,6 +112,12 @@ def handle (_ : Unit) (toks : List Tok) : Unit × String :=
         pure (answerQIso (en != 0) (← graphOf gn ge) (← graphOf sn se) (← pairsOf c) (← (← recs.list?).mapM recordOf))
     | [Tok.str "qlcs", gn, ge, sn, se, c, recs] => do
         pure (answerQLcs (← graphOf gn ge) (← graphOf sn se) (← pairsOf c) (← (← recs.list?).mapM recordOf))
+    | [Tok.str "tbool", Tok.int which, Tok.int en, gn, ge, sn, se, c] => do
+        let g ← graphOf gn ge
+        let sg ← graphOf sn se
+        let C ← pairsOf c
+        pure (encBool (if which == 0 then C06I.subgraphIsIsomorphicWith (fun _ => C06I.pickMin) (en != 0) g sg C
+                       else C06I.isIsomorphicWith (fun _ => C06I.pickMin) (en != 0) g sg C))
     | [Tok.str "tvalid", sn, se, c] => do
         pure (encBool (C06I.constraintsValidB (← graphOf sn se) (← pairsOf c)))
     | [Tok.str "tcons", cs] => do
